@@ -70,6 +70,8 @@ VOCAB = [
     "@if aaaaaaaaaaaaaaaaaaaaaaaaaaaaaaaaaaaaaaaa bbbbbbbbbbbbbbbbbbbbbbbbbbbbbbbbbbbbbbbb", "<<if aaaaaaaaaaaaaaaaaaaaaaaaaaaaaaaaaaaaaaaaaaaaaa >",
     "+ {aaaaaaaaaaaaaaaaaaaaaaaaaaaaaaaaaaaaaaaaaaaaaaaa [bbbbbbbbbbbbbbbbbbbbbbbbbbbbbbbbbb -> C", "@render:" + "a" * 40, "@render " + "f(" * 30,
     "@input " + "a=\"b " * 25, ":: A(" + "x, " * 30, "{" + "a ? " * 25 + "}", "-> " + "a." * 40 + "(", "~ x = " + "(" * 40, "^" + "a:b" * 30,
+    # attribute named like the token's own field; comments around @metadata; old markers after @join
+    "@input name=\"n\" type=\"password\"", "@input type=\"x\"", "@metadata # c", "@metadata  # about", "  # c", "  author: A # c", "# title: no",
     "@include", "@foo", "@", "@@", "import os", "from x import y", "from", "import", "# c", "", "   ", "\t", "#", "@endjoin", "@if x: // c", "@prefix a",
 ]
 
@@ -134,7 +136,7 @@ def compile_text(text, limit=5.0, via_file=False):
             if isinstance(e, KeyboardInterrupt):
                 raise
             c = classify(e, e.__traceback__, allow_fnf=via_file)
-            if via_file and isinstance(e, OSError) and "@include" in text:
+            if via_file and isinstance(e, OSError) and not isinstance(e, (IsADirectoryError, NotADirectoryError)) and "@include" in text:
                 c = "diag"        # the operating system's answer about an include target (missing, a directory, unreadable)
             return ("diag", type(e).__name__) if c == "diag" else ("internal", c)
         finally:
@@ -292,7 +294,8 @@ def include_cases(rep):
                  "cyc_a.bard": "@include cyc_b.bard\n:: Start\nx\n", "cyc_b.bard": "@include cyc_a.bard\n:: B\ny\n",
                  "self.bard": ":: Start\n@include self.bard\n",
                  "broken_child.bard": ":: Start\n@include child.bard\n", "child.bard": "@if x:\n",
-                 "empty_inc.bard": "@include \n:: Start\nx\n", "dir_inc.bard": "@include .\n:: Start\nx\n"}
+                 "empty_inc.bard": "@include \n:: Start\nx\n", "dir_inc.bard": "@include .\n:: Start\nx\n",
+                 "below_file.bard": "@include child.bard/x.bard\n:: Start\nx\n", "updir.bard": "@include ..\n:: Start\nx\n"}
         # a (non-cyclic) chain of includes deeper than the interpreter's recursion limit
         for i in range(1150):
             files[f"deep{i}.bard"] = (f"@include deep{i + 1}.bard\n" if i < 1149 else "") + f":: D{i}\nx\n"
@@ -309,7 +312,7 @@ def include_cases(rep):
                 rep.violations.append({"cls": None, "family": "c11-include", "what": f"compile_file({k}) does not terminate", "files": {a: b for a, b in files.items() if not a.startswith("deep")}})
             except BaseException as e:  # noqa
                 c = classify(e, e.__traceback__, allow_fnf=True)
-                if c != "diag" and not isinstance(e, OSError):
+                if c != "diag" and (not isinstance(e, OSError) or isinstance(e, (IsADirectoryError, NotADirectoryError))):
                     rep.violations.append({"cls": None, "family": "c11-include", "what": f"compile_file({k}): {c}", "files": {a: b for a, b in files.items() if not a.startswith("deep")}})
     finally:
         shutil.rmtree(d, ignore_errors=True)
